@@ -447,7 +447,8 @@ func init() {
 					for k := range b {
 						b[k] = alpha[r.Intn(len(alpha))]
 					}
-					c04Run(e, c, string(b), bes, o)
+					seq := string(b)
+					o.Unit(fmt.Sprintf("%s seq=%s", vh.J(c), seq), func(o *vh.Out) { c04Run(e, c, seq, bes, o) })
 					o.Eval(1)
 					o.Distinct(fmt.Sprintf("%v|%s", c, b))
 				}
@@ -459,7 +460,9 @@ func init() {
 			var rec func(i int)
 			rec = func(i int) {
 				if i == c.Depth {
-					c04Run(e, c, string(buf), bes, o)
+					seq := string(buf)
+					// each sequence is re-executed on its own after a time anomaly or an unconfirmed violation
+					o.Unit(fmt.Sprintf("%s seq=%s", vh.J(c), seq), func(o *vh.Out) { c04Run(e, c, seq, bes, o) })
 					n++
 					return
 				}
@@ -481,7 +484,7 @@ func init() {
 		Kind     string `json:"kind"`
 		Strategy string `json:"strategy"`
 	}
-	vh.AddPart("C04", "schedules", "sim", vh.Opts{Shards: 10, TimeoutS: 300},
+	vh.AddPart("C04", "schedules", "sim", vh.Opts{NoConfirm: true, Shards: 10, TimeoutS: 300},
 		func(e *vh.Env) []c04Sched {
 			var cs []c04Sched
 			for _, st := range allStrategies {
